@@ -121,6 +121,11 @@ PROPS_ALL["C13"] = cache_prop(
     "C13", "Coq proof (admit loop = declarative TinyLFU rule on the LRU triples, early exit shown irrelevant) + lock-step correspondence incl. sketch words + prediction oracle from the implementation's own estimates",
     "Theorem for the single-threaded cache model, all well-formed states/configurations/hashers: a new key that does not fit (and is not oversized) is admitted iff the shortest LRU prefix with weight >= its own exists and its estimate is strictly greater than the summed estimates of that prefix; if admitted exactly that prefix is evicted, otherwise no resident is touched; an oversized newcomer is rejected without touching anything. Scan resistance and 'popular newcomer gets in' are instances. PARTIAL: the concurrent cache (maintenance after every op) is tied by the lock-step correspondence (sketch words, map, deque) and the prediction oracle that recomputes the decision from the implementation's own estimates read just before the insert." + TIE)
 
+PROPS_ALL["C09"] = dict(cache_prop(
+    "C09", "Coq proof (sequential: every step of the concurrent-cache model returns Ok, fuel of the retry loop never exhausted; concurrent: invariants, deadlock freedom and fair termination of an abstract housekeeper/channel/mutex protocol model, all interleavings) + controlled-scheduler exploration with termination oracle and acceptance of flag/lock traces + single-thread bursts",
+    "Theorems: (sequential regime, Sync/SInvTop.v) every operation of every history of the concurrent-cache model returns Ok, for any number of inserts without sync() in both housekeeping regimes (the retry loop of schedule_write_op, modelled on explicit fuel, never runs out; the queues stay within their flush points; a maintenance run drains both queues); (Conc/HK.v, any number of threads, all interleavings) the housekeeper flag is held exactly between the successful CAS and the releasing store, the mutex by exactly the thread inside sync, no reachable state is deadlocked, a finishing schedule exists from every reachable state, and under every fair scheduler all threads finish with flag and lock released. PARTIAL (runtime behaviour the model cannot exhibit): OS fairness, the 50 us sleep, DashMap/crossbeam internals; tie: every run explores small concurrent programs on the real cache under the controlled scheduler (termination oracle with a step budget; a thread blocking forever on a real lock is a hang reported with the program+schedule as replay), the flag/lock action traces must be accepted by the extracted hk_accepts_quiescent, single-thread bursts of 400-1100 un-synced operations in both regimes run in lock-step with the model, and every harness operation runs under a watchdog (a hang is reported as CRASH hang for that operation).",
+    note_extra=NOTE_CONC), module="p_conc")
+
 # Only properties whose whole pipeline is in place are claimed in MANIFEST.json.
-CLAIMED = ["C14", "C01", "C05", "C06", "C07", "C16", "C08", "C10", "C11", "C17", "C15", "C02", "C03", "C04", "C12", "C13"]
+CLAIMED = ["C14", "C01", "C05", "C06", "C07", "C16", "C08", "C10", "C11", "C17", "C15", "C02", "C03", "C04", "C12", "C13", "C09"]
 PROPS = {k: v for k, v in PROPS_ALL.items() if k in CLAIMED}
